@@ -224,15 +224,40 @@ def check_call(fq, args, kwargs=None, contract=None, fn=None):
             except Exception:
                 continue
     del specfuns._TRACE[:]
+    installed = []
+    if c.get("callee_events") and "self" in env:
+        # event view: the callees named by the contract record (name, arguments) and then run as usual
+        depth = [0]
+
+        def _rec(name, orig):
+            def w(*a, **k):
+                if depth[0] == 0:       # only the calls the function under contract makes itself
+                    specfuns._TRACE.append((name,) + tuple(a) + tuple(k.values()))
+                depth[0] += 1
+                try:
+                    return orig(*a, **k)
+                finally:
+                    depth[0] -= 1
+            return w
+        for cfq, evn in c["callee_events"].items():
+            mname = cfq.rsplit(".", 1)[-1]
+            evn = evn["name"] if isinstance(evn, dict) else evn
+            setattr(env["self"], mname, _rec(evn, getattr(env["self"], mname)))
+            installed.append(mname)
     try:
         result = call_with_timeout(fn, ba.args, ba.kwargs)
     except CallTimeout:
+        for mname in installed:
+            delattr(env["self"], mname)
+        installed = []
         return {"status": "fail", "observed": "no return within %gs" % CALL_TIMEOUT_S, "timeout": True,
                 "failures": [("termination", "the call did not return within %gs (non-termination?)" % CALL_TIMEOUT_S)]}
     except RecursionError as e:
         raised = e
     except Exception as e:  # noqa
         raised = e
+    for mname in installed:
+        delattr(env["self"], mname)
     if raised is not None:
         name = type(raised).__name__
         full = type(raised).__module__ + "." + name
